@@ -54,9 +54,18 @@ func zfChild(anchor ethtypes.Header, label string) ethtypes.Header {
 	return ethtypes.Header{
 		ParentHash: anchor.Hash().Bytes(), UncleHash: gethtypes.EmptyUncleHash.Bytes(), Coinbase: bytes.Repeat([]byte{0x22}, 20),
 		Root: bytes.Repeat([]byte{0x44}, 32), TxHash: gethtypes.EmptyRootHash.Bytes(), ReceiptHash: gethtypes.EmptyRootHash.Bytes(), Bloom: make([]byte, 256),
-		Difficulty: big.NewInt(131072).Bytes(), Height: clienttypes.NewHeight(0, 101), GasLimit: 30000000, GasUsed: 15000000, Time: 1700000020,
+		Difficulty: big.NewInt(zfDifficulty(label)).Bytes(), Height: clienttypes.NewHeight(0, 101), GasLimit: 30000000, GasUsed: 15000000, Time: 1700000020,
 		Extra: []byte(label), MixDigest: make([]byte, 32), Nonce: 0, BaseFee: nil,
 	}
+}
+
+// zfDifficulty: the rule yields the minimum difficulty for the child; the "inflated" child claims more (and is genuinely
+// sealed for what it claims).
+func zfDifficulty(label string) int64 {
+	if label == "inflated" {
+		return 131072 + 4096
+	}
+	return 131072
 }
 
 // zfGeth builds go-ethereum's form of h without the client's conversion; london decides whether the base fee (zero) is
@@ -85,7 +94,7 @@ func TestMineZeroFeeFixtures(t *testing.T) {
 	}
 	anchor := zfAnchor()
 	var fx zfFixture
-	for _, label := range []string{"london", "legacy"} {
+	for _, label := range []string{"london", "legacy", "inflated"} {
 		child := zfChild(anchor, label)
 		target := new(big.Int).Div(new(big.Int).Lsh(big.NewInt(1), 256), new(big.Int).SetBytes(child.Difficulty))
 		var found atomic.Bool
@@ -99,7 +108,7 @@ func TestMineZeroFeeFixtures(t *testing.T) {
 				defer wg.Done()
 				eng := ethtypes.New(ethtypes.Config{}, nil, false)
 				defer eng.Close()
-				g := zfGeth(child, label == "london")
+				g := zfGeth(child, label != "legacy")
 				for n := uint64(w); !found.Load(); n += uint64(workers) {
 					g.Nonce = gethtypes.EncodeNonce(n)
 					d, res := eng.VerifLightPoW(g)
@@ -134,7 +143,7 @@ func zeroFeeCases(e *env) {
 	}
 	bz, err := os.ReadFile(zfPath())
 	var fx zfFixture
-	if err != nil || json.Unmarshal(bz, &fx) != nil || len(fx.Seals) != 2 {
+	if err != nil || json.Unmarshal(bz, &fx) != nil || len(fx.Seals) != 3 {
 		r.Inconclusive("%s: cannot read the mined seals: %v", cid, err)
 		return
 	}
@@ -146,7 +155,7 @@ func zeroFeeCases(e *env) {
 		c := zfChild(anchor, s.Label)
 		c.Nonce, c.MixDigest = s.Nonce, common.Hex2Bytes(s.Mix)
 		// ground truth of the fixture: the seal holds over exactly the field list its label names - and not over the other one
-		own, other := eng.VerifySeal(zfGeth(c, s.Label == "london"), false), eng.VerifySeal(zfGeth(c, s.Label != "london"), false)
+		own, other := eng.VerifySeal(zfGeth(c, s.Label != "legacy"), false), eng.VerifySeal(zfGeth(c, s.Label == "legacy"), false)
 		if own != nil || other == nil {
 			r.Inconclusive("%s: stored seal %q is not what it claims to be (own list: %v, other list: %v)", cid, s.Label, own, other)
 			return
@@ -183,7 +192,7 @@ func zeroFeeCases(e *env) {
 		case expectAccept && err != nil:
 			r.Violation(cid, "pow/zero-base-fee/rejected-valid-child-of-stored-header/err="+errSlug(err), det)
 		case !expectAccept && err == nil:
-			r.Violation(cid, "pow/zero-base-fee/accepted-header-whose-seal-does-not-cover-the-base-fee", det)
+			r.Violation(cid, map[string]string{"legacy": "pow/zero-base-fee/accepted-header-whose-seal-does-not-cover-the-base-fee", "inflated": "pow/accepted-invalid/difficulty-above-the-rule/genuinely-sealed"}[label], det)
 		}
 		if err == nil && expectAccept {
 			write()
@@ -201,6 +210,9 @@ func zeroFeeCases(e *env) {
 	}
 	try("legacy", false)
 	r.Count("pow/zero_base_fee_legacy_sealed_child_submitted", 1)
+	// a child that claims MORE difficulty than the rule yields from its parent, genuinely sealed for the claim
+	try("inflated", false)
+	r.Count("pow/child_claiming_more_difficulty_than_the_rule_genuinely_sealed_submitted", 1)
 	try("london", true)
 	r.Count("pow/zero_base_fee_london_sealed_child_submitted", 1)
 }
